@@ -259,6 +259,8 @@ class Poly:
 def _lift(x):
     if isinstance(x, Poly):
         return x
+    if hasattr(x, 'cond'):
+        return x  # a guarded value (interp.ITE): kept as it is; only comparisons understand it
     return Poly.const(x)
 
 
@@ -410,6 +412,13 @@ class CPoly:
         return self.re.is_zero() and self.im.is_zero()
 
     def equals(self, o, tol=TOL):
+        if any(hasattr(x, 'cond') for x in (self.re, self.im, o.re, o.im)):
+            import guarded
+            if hasattr(o.re, 'cond') or hasattr(o.im, 'cond'):
+                if hasattr(self.re, 'cond') or hasattr(self.im, 'cond'):
+                    return repr(self) == repr(o)
+                return o.equals(self, tol)
+            return guarded.same(self.re, o.re) and guarded.same(self.im, o.im)
         return self.re.equals(o.re, tol) and self.im.equals(o.im, tol)
 
     def __repr__(self):
